@@ -503,7 +503,7 @@ pub fn c15(ctx: &mut Ctx) {
             vec![0xFFF0_FFFF, 0x0000_0000, 0x0001_8000, 0x7FFF_0101, 0x8000_FFFE],
             vec![],
         ];
-        ctx.bound("iterator histories", format!("Nack::entries over 5 short word lists and lists of 33..376 words, Fir::entries and Sli::lost_macroblocks over 0..=5 entries with and without a trailing partial entry and over 33..300 entries: all call sequences of length <= {} over {{next, nth(0), nth(1), nth(2), nth(7), take(2).count()}} x 10 endings with size_hint() after every call, over those plus {{size_hint(), observe()}} placed by the history, and short ones with other values parsed and iterated between any two calls", depth));
+        ctx.bound("iterator histories", format!("Nack::entries over 5 short word lists and lists of 33..376 words, Fir::entries and Sli::lost_macroblocks over 0..=5 entries with and without a trailing partial entry and over 33..300 entries: all call sequences of length <= {} over {{next, nth(0), nth(1), nth(2), nth(7), take(2).count()}} x 10 endings with size_hint() after every call, over those plus {{size_hint(), observe(), a second iterator over the same value}} placed by the history, and short ones with other values parsed and iterated between any two calls", depth));
         // (FCI type, body): the short lists, then lists longer than any batch, scratch or inline capacity an
         // implementation is likely to choose (33 ... 376 words / entries), where a second value is being iterated while
         // the first iterator is alive (the histories' decoy pass and their observe() operation)
